@@ -35,7 +35,12 @@ def main():
         alarms = {p: v for p, rc, v in res if rc != 0}
         result[name] = alarms
         print(f"{name}: " + ("quiet" if not alarms else "; ".join(f"{p}: {' | '.join(x.strip()[:150] for x in v[:3])}" for p, v in alarms.items())), flush=True)
-    json.dump(result, open(os.path.join(ROOT, "refactorings", "result.json"), "w"), indent=1)
+    path = os.path.join(ROOT, "refactorings", "result.json")
+    if want and os.path.exists(path):
+        old = json.load(open(path))       # a partial run updates the entries it re-ran
+        old.update(result)
+        result = dict(sorted(old.items()))
+    json.dump(result, open(path, "w"), indent=1)
 
 if __name__ == "__main__":
     main()
